@@ -116,7 +116,13 @@ let () =
               List.map (fun u -> Printf.sprintf "%d:P%d=[%s]" t u
                            (if u < n then trace_s u arr.(u).out else "?")) (peeks p)) progs)));
           Buffer.add_string buf " # ";
+          (* contract check: the machine under the case's schedule must terminate cleanly (no abort, no
+             undefined behaviour, nobody stuck, no mutex left held) *)
+          let g = th_rr (nat_of_int 20000) (nat_of_int n) (th_run sched (th_ginit progs)) in
+          let bad = g.aborted || List.exists (fun (_, s) -> s.ub || s.holding <> []) g.thr
+                    || not (th_all_done g) in
           if List.exists (fun l -> l.fatal) finals then Buffer.add_string buf "ABORTED"
+          else if bad then Buffer.add_string buf "OUTOFCONTRACT"
           else Buffer.add_string buf "ok"
         end else begin
           let sched = if mode = "sched2" then List.rev sched else sched in
